@@ -137,6 +137,12 @@ pub fn replay(v: &Value) -> Result<String, String> {
             }
         }
     }
+    if let Some(pfx) = v.get("forbid_prefix").and_then(|x| x.as_str()) {
+        if out.out_str().starts_with(pfx) {
+            ok = false;
+            rep.push_str(&format!("output starts with forbidden {:?}\n", pfx));
+        }
+    }
     if let Some(f) = v.get("require").and_then(|x| x.as_array()) {
         for s in f {
             if let Some(s) = s.as_str() {
